@@ -356,6 +356,26 @@ fn check_faults(ctx: &Ctx, c: &FaultCase, probe: &mut Probe) -> Check {
                     other => vfail!("C20/disk/corruption-not-reported", "flip byte {k}: {:?}", other.map(|o| o.map(|x| x.len())).map_err(|e| e.to_string())),
                 }
                 evals += 1;
+                // the same damage as bit rot or a timestamp-preserving restore leaves it: same
+                // length, same modification time as the file the tier wrote and has read
+                std::fs::write(&path, orig).unwrap();
+                let _ = tier.get(h);
+                if let Ok(m0) = std::fs::metadata(&path).and_then(|m| m.modified()) {
+                    std::fs::write(&path, &b).unwrap();
+                    let kept = std::fs::File::options().write(true).open(&path).and_then(|f| f.set_modified(m0)).is_ok()
+                        && std::fs::metadata(&path).and_then(|m| m.modified()).map(|m| m == m0).unwrap_or(false);
+                    if kept {
+                        match tier.get(h) {
+                            Err(DiskTierError::Cas(CasError::HashMismatch { .. })) => {}
+                            Ok(Some(g)) => vfail!("C20/disk/corruption-returned-as-content", "flip byte {k} of blob {i} with the modification time preserved: get returned {} bytes", g.len()),
+                            other => vfail!("C20/disk/corruption-not-reported", "flip byte {k} (mtime preserved): {:?}", other.map(|o| o.map(|x| x.len())).map_err(|e| e.to_string())),
+                        }
+                        probe.class("disk:same-length-same-mtime-corruption-detected");
+                        evals += 1;
+                    } else {
+                        probe.class("disk:mtime-could-not-be-preserved");
+                    }
+                }
             }
             // every truncation length and one extension
             let cuts: Vec<usize> = if orig.len() <= 40 { (0..orig.len()).collect() } else { (0..40).map(|k| k * orig.len() / 40).collect() };
